@@ -99,13 +99,14 @@ type Cond struct {
 }
 
 type Model struct {
+	ID     string  `json:"id,omitempty"` // the model's id field (part of its content)
 	Schema string  `json:"schema"`
 	Types  []*Type `json:"types"`
 	Conds  []*Cond `json:"conds,omitempty"`
 }
 
 func (m *Model) clone() *Model {
-	c := &Model{Schema: m.Schema}
+	c := &Model{Schema: m.Schema, ID: m.ID}
 	for _, t := range m.Types {
 		ct := &Type{Name: t.Name, Module: t.Module, File: t.File}
 		for _, r := range t.Relations {
@@ -199,7 +200,7 @@ var paramTypeNames = map[string]openfgav1.ConditionParamTypeRef_TypeName{
 
 // toProto renders the plan. withSourceInfo controls modular attribution.
 func (m *Model) toProto() *openfgav1.AuthorizationModel {
-	pm := &openfgav1.AuthorizationModel{SchemaVersion: m.Schema}
+	pm := &openfgav1.AuthorizationModel{SchemaVersion: m.Schema, Id: m.ID}
 	for _, t := range m.Types {
 		td := &openfgav1.TypeDefinition{Type: t.Name}
 		if len(t.Relations) > 0 {
@@ -433,7 +434,7 @@ func exprFromProto(u *openfgav1.Userset) (*Expr, error) {
 }
 
 func modelFromProto(pm *openfgav1.AuthorizationModel) (*Model, error) {
-	m := &Model{Schema: pm.GetSchemaVersion()}
+	m := &Model{Schema: pm.GetSchemaVersion(), ID: pm.GetId()}
 	for _, td := range pm.GetTypeDefinitions() {
 		t := &Type{Name: td.GetType(), Module: td.GetMetadata().GetModule(), File: td.GetMetadata().GetSourceInfo().GetFile()}
 		names := make([]string, 0, len(td.GetRelations()))
